@@ -206,9 +206,15 @@ def corpus(chk, b, n, wd):
         d = os.path.join(wd, "probe_" + os.path.basename(path)[:-3])
         os.makedirs(d, exist_ok=True)
         open(os.path.join(d, "p.as"), "w").write(text)
-        rc, o, e, to = vlib.aldor(b, ["-Q2", "-Ginterp", "p.as"], d, timeout=30)
+        # usable as a reference only if the directly compiled program runs at every level the paths use (a corpus program that
+        # the interpreter cannot run at -Q0 -- rawrec1: `fintEval: RRFmt unimplemented' -- says nothing about saved forms)
+        good = True
+        for q in LEVELS:
+            rc, o, e, to = vlib.aldor(b, ["-" + q, "-Ginterp", "p.as"], d, timeout=40)
+            good = good and rc == 0 and not to and b"Error)" not in o + e and b"Warning)" not in o + e and 0 < len(o) < 20000
+            if not good:
+                break
         shutil.rmtree(d, ignore_errors=True)
-        good = rc == 0 and not to and b"Error)" not in o + e and b"Warning)" not in o + e and len(o) > 0 and len(o) < 20000
         return text if good else None
     with concurrent.futures.ThreadPoolExecutor(max_workers=8) as ex:
         for path, text in zip(cands[:5 * n], ex.map(probe, cands[:5 * n])):
